@@ -25,6 +25,8 @@
 (declare-fun node_ns (Iface) String)         ; Ns()
 (declare-fun node_name (Iface) String)       ; Name()
 (declare-fun node_children_of (Iface Int) Slice) ; ChildrenByType(t)
+(declare-fun node_hasdef (Iface) Bool) ; HasDef(): the statement has a default substatement
+(declare-fun node_def (Iface) String) ; Def(): its argument
 (declare-fun node_mod_by_prefix (Iface String) Iface)
 (declare-fun node_mod_by_prefix_err (Iface String) Iface)
 (declare-fun node_pfx_ns (Iface String) String)   ; YangPrefixToNamespace(prefix): namespace a prefix denotes for this statement
@@ -48,5 +50,9 @@
 (declare-fun node_childat (Iface Int) Iface)
 (declare-fun node_grouping (Iface String) Iface)   ; LookupGrouping(name): the grouping visible from the node under that name
 (declare-fun node_hasgrouping (Iface String) Bool)
+(declare-fun node_lookup_child (Iface Int String) Iface) ; LookupChild(type, name): the substatement of that keyword with that argument
+(declare-fun node_cardend (Iface Int) Int)                ; GetCardinalityEnd(type): upper end of the cardinality of that substatement
+(declare-fun node_notsupported (Iface) Bool)             ; NotSupported(): deviated not-supported
+(declare-fun feat_ifon (Iface) Bool)                     ; CheckIfFeature(if-feature statement): the feature it names is valid
 (declare-fun mach_expr (Int) String)                 ; the expression text an xpath.Machine was compiled from
 (declare-fun node_argdate (Iface) String)       ; ArgDate()
